@@ -173,28 +173,28 @@ RANDOM_ONLY = {
         dict(kind='wtlfu', **wt(3, 5, 4, 24, 14, [1, 2, 3], random=(150, 500))),
         dict(kind='wtlfu', **wt(4, 3, 8, 30, 18, [1, 2, 3], random=(100, 600))),
         dict(kind='wtlfu', **wt(5, 10, 10, 40, 30, [1, 2, 3], random=(100, 800))),
-        dict(kind='raw', **raw(40, [0, 1, 2, 5, 10, 36, 38, 39, 41, 64], 64, [1, 2, 3], random=(40, 3000))),
-        dict(kind='raw', **raw(100, [0, 1, 3, 7, 25, 50, 90, 97, 99, 101, 128], 150, [1, 2, 3], random=(20, 5000))),
-        dict(kind='slru', **slru(20, 24, 64, [1, 2, 3], random=(40, 3000))),
-        dict(kind='slru', **slru(4, 16, 32, [1, 2, 3], random=(40, 3000))),
-        dict(kind='slru', **slru(33, 5, 56, [1, 2, 3], random=(40, 3000))),
-        dict(kind='slru', **slru(64, 64, 180, [1, 2, 3], random=(20, 5000))),
-        dict(kind='2q', **twoq(40, 10, 20, 72, [1, 2, 3], random=(40, 3000))),
-        dict(kind='2q', **twoq(16, 4, 8, 28, [1, 2, 3], random=(40, 2000))),
-        dict(kind='2q', **twoq(100, 25, 50, 200, [1, 2, 3], random=(20, 5000))),
-        dict(kind='2q', **twoq(16, 16, 16, 30, [1, 2, 3], random=(40, 2000))),
-        dict(kind='2q', **twoq(16, 15, 8, 28, [1, 2, 3], random=(40, 2000))),
-        dict(kind='2q', **twoq(20, 0, 20, 36, [1, 2, 3], random=(40, 2000))),
-        dict(kind='2q', **twoq(48, 47, 24, 90, [1, 2, 3], random=(20, 4000))),
-        dict(kind='arc', **arc(32, 72, [1, 2, 3], random=(40, 3000))),
-        dict(kind='arc', **arc(16, 36, [1, 2, 3], random=(40, 2000))),
-        dict(kind='arc', **arc(100, 220, [1, 2, 3], random=(20, 5000))),
-        dict(kind='wtlfu', **wt(8, 20, 24, 100, 72, [1, 2, 3], random=(40, 3000))),
-        dict(kind='wtlfu', **wt(1, 19, 80, 200, 130, [1, 2, 3], random=(20, 5000))),
-        dict(kind='wtlfu', **wt(2, 39, 160, 400, 260, [1, 2, 3], random=(10, 8000))),
+        dict(kind='raw', **raw(40, [0, 1, 2, 5, 10, 36, 38, 39, 41, 64], 64, [1, 2, 3], random=(20, 3000))),
+        dict(kind='raw', **raw(100, [0, 1, 3, 7, 25, 50, 90, 97, 99, 101, 128], 150, [1, 2, 3], random=(10, 5000))),
+        dict(kind='slru', **slru(20, 24, 64, [1, 2, 3], random=(20, 3000))),
+        dict(kind='slru', **slru(4, 16, 32, [1, 2, 3], random=(20, 3000))),
+        dict(kind='slru', **slru(33, 5, 56, [1, 2, 3], random=(20, 3000))),
+        dict(kind='slru', **slru(64, 64, 180, [1, 2, 3], random=(10, 5000))),
+        dict(kind='2q', **twoq(40, 10, 20, 72, [1, 2, 3], random=(20, 3000))),
+        dict(kind='2q', **twoq(16, 4, 8, 28, [1, 2, 3], random=(20, 2000))),
+        dict(kind='2q', **twoq(100, 25, 50, 200, [1, 2, 3], random=(10, 5000))),
+        dict(kind='2q', **twoq(16, 16, 16, 30, [1, 2, 3], random=(20, 2000))),
+        dict(kind='2q', **twoq(16, 15, 8, 28, [1, 2, 3], random=(20, 2000))),
+        dict(kind='2q', **twoq(20, 0, 20, 36, [1, 2, 3], random=(20, 2000))),
+        dict(kind='2q', **twoq(48, 47, 24, 90, [1, 2, 3], random=(10, 4000))),
+        dict(kind='arc', **arc(32, 72, [1, 2, 3], random=(20, 3000))),
+        dict(kind='arc', **arc(16, 36, [1, 2, 3], random=(20, 2000))),
+        dict(kind='arc', **arc(100, 220, [1, 2, 3], random=(10, 5000))),
+        dict(kind='wtlfu', **wt(8, 20, 24, 100, 72, [1, 2, 3], random=(20, 3000))),
+        dict(kind='wtlfu', **wt(1, 19, 80, 200, 130, [1, 2, 3], random=(10, 5000))),
+        dict(kind='wtlfu', **wt(2, 39, 160, 400, 260, [1, 2, 3], random=(6, 8000))),
         dict(kind='wtlfu', **wt(1, 1, 1, 1000, 4, [1, 2], random=(100, 600))),
         dict(kind='wtlfu', **wt(2, 2, 1, 600, 6, [1, 2], random=(100, 600))),
-        dict(kind='wtlfu', **wt(1, 2, 2, 5000, 8, [1, 2], random=(50, 2000))),
+        dict(kind='wtlfu', **wt(1, 2, 2, 5000, 8, [1, 2], random=(25, 2000))),
     ],
 }
 
